@@ -5,7 +5,7 @@ import warnings
 
 import numpy as np
 
-from .. import gen, geom
+from .. import gen, geom, snap
 from ..core import Skip, signature
 from ..monitor import Monitor
 
@@ -185,7 +185,9 @@ def run_unit(unit, rng, ctx):
         positions[positions == 1] = 0
         what = f'{sg.symbol} (#{n}) {"spglib ops" if use_spglib else "SpaceGroup"} ops={len(ops)} radius={radius:.3f}'
         wit = {'spacegroup': sg.symbol, 'lattice': m, 'radius': radius, 'sites': [s.frac_coords for s in an_sites]}
-        shapes = analyzer.analyze_positions(positions.copy(), radius=radius)
+        handed = positions.copy()
+        shapes = analyzer.analyze_positions(handed, radius=radius)
+        ctx.check(np.array_equal(handed, positions), f'{what}: analyze_positions modified the position array it was given', wit)
         ctx.check(len(shapes) == len(an_sites), f'{what}: {len(shapes)} shapes for {len(an_sites)} sites', wit)
         tot_out = tot_pts = 0
         for s, shp in zip(an_sites, shapes):
@@ -204,7 +206,16 @@ def run_unit(unit, rng, ctx):
         near = np.mod(s0[None, None, :] + (gen.random_unit_vectors(rng, T * N).reshape(T, N, 3) * rng.uniform(0, 1.2 * radius, size=(T, N, 1))) @ inv, 1)
         tp = np.where(rng.uniform(size=(T, N, 1)) < 0.5, (near + cell) / np.array(sc), tp)
         traj = gen.make_trajectory(np.array(sc)[:, None] * m, gen.species_objects(['Li'] * N), tp)
-        shapes_t = analyzer.analyze_trajectory(traj, supercell=None if sc == (1, 1, 1) and rng.integers(2) else sc, radius=radius)
+        sc_arg = None if sc == (1, 1, 1) and rng.integers(2) else sc
+        traj_before = snap.traj_content(traj)
+        if unit['r'] % 2 == 0 and rng.integers(2):
+            # history: the same trajectory object was analysed before (e.g. analyse -> optimise sites -> analyse)
+            _ = analyzer.analyze_trajectory(traj, supercell=sc_arg, radius=float(radius * rng.uniform(0.5, 1.0)))
+            ctx.count('repeated_trajectory_analyses')
+        shapes_t = analyzer.analyze_trajectory(traj, supercell=sc_arg, radius=radius)
+        chg = snap.diff_traj_content(traj_before, snap.traj_content(traj))
+        ctx.check(chg is None, f'{what} supercell={sc}: analyze_trajectory modified the trajectory it was given: {chg}', wit)
+        pos_before = positions.copy()
         P = np.mod(tp, 1)
         P[P == 1] = 0
         folded = np.mod(P.reshape(-1, 3) * np.array(sc), 1)
